@@ -8,6 +8,7 @@ import common as C
 import hist
 import progs as P
 import c02_crash as X
+import c02_env as E
 
 COQ_FILES = ("L3_Sig/Program.v", "L3_Sig/Sig.v", "L4_Eval/DdsEval.v", "L4_Eval/RunEval.v", "L3_Sig/SigProofs.v", "Properties/C02.v")
 EXTRACTED = ("ConstHash", "ConstSig")
@@ -298,11 +299,24 @@ def run(rep, tier, seed, proof_ok):
                 "directly + loads every path; expectation: the first evaluation completing after the interruption returns the value "
                 "of plain execution and executes only kept bodies that the uncrashed evaluation from the same starting state "
                 "executes and whose result the store had not acknowledged before the interruption; every later evaluation / direct "
-                "call executes NO kept body, returns the plain value and commits the signatures of the uncrashed run")
+                "call executes NO kept body, returns the plain value and commits the signatures of the uncrashed run.  Further dimension, "
+                f"the execution environment of the unchanged re-evaluation (c02_env.py): {E.n_pipelines(tier)} generated pipelines (entry "
+                "through dds.eval / dds.keep with run-time arguments) whose kept functions and data functions depend on values that look like "
+                "pieces of the environment {relative / absolute / '~' / '$VAR' concrete pathlib.Path, PurePosixPath, strings that look like "
+                "paths or mention $HOME / ${TMPDIR}} x wrapping {bare, list, dict, tuple, nested, dataclass} x position {module variable, "
+                "default value, run-time argument, literal argument}; evaluated once on a bare store, then - nothing changed - in the same "
+                "process after os.chdir (3 directories) / HOME changed / unset / TMPDIR / the variable a value mentions / umask / locale / "
+                "sys.path order, and from fresh processes on the same store {started in another directory (+ os.chdir back), other HOME / "
+                "TMPDIR / variable, all of these + LC_ALL + umask + random hash seed, an identical copy of the code tree imported from "
+                "another directory" + ("" if tier == "quick" else ", 4 random combinations with chains of os.chdir") + "}; expectation: the first "
+                "evaluation returns the value of plain execution (which is the same in every environment: checked), every later one "
+                "executes NO kept body, returns that value and commits the same path -> signature map")
     plans = [plan_program(seed * 1000 + i, n_edits) for i in range(n_prog)] + load_pipelines()
     flat = [h[3] for pl in plans for h in pl["histories"]]
     with cf.ThreadPoolExecutor(max_workers=C.NPROC) as ex:
+        env_started = E.start(tier, seed, ex)
         flat_res = list(ex.map(run_one_history, flat))
+    dist_env = E.finish(rep, env_started)
     results, k = [], 0
     for pl in plans:
         n = len(pl["histories"])
@@ -324,12 +338,15 @@ def run(rep, tier, seed, proof_ok):
         for d in res["diffs"]:
             rep.violation("model-mismatch:" + d["diffs"][0][0], f"implementation and model disagree at {d['where']}: {json.dumps(d['diffs'])[:300]}", d)
         rep.sample(res["sample"], cap=3)
-    rep.extra["input_distribution"] = {"programs": len(results), "edits_by_kind": kinds, "interrupted_evaluations": dist_int}
+    rep.extra["input_distribution"] = {"programs": len(results), "edits_by_kind": kinds, "interrupted_evaluations": dist_int,
+                                       "unchanged_evaluations_in_another_environment": dist_env}
 
 
 def replay(path):
     r = json.load(open(path))["replay"]
     if "interrupted_history" in r:
         return X.replay(r)
+    if "exec_env_c02" in r:
+        return E.replay(r)
     import c01
     return c01.replay(path)
